@@ -82,22 +82,62 @@ def parseInstrs : List Tok → List Obj → List Instr × List Obj
     let (is, tr) := parseInstrs rest []
     (⟨o, acc⟩ :: is, tr)
 
-/-- A simple font as far as the text model needs it (C06 owns the rest). -/
+/-- A font as far as the text model needs it (C06/C07 own the rest).
+* simple fonts: one-byte codes, `widths[code - first]` else `missing`, glyph space = 1/1000;
+* Type 3: `fm` is the FontMatrix (glyph space → text space), `descent` comes from the FontBBox;
+* CID fonts (`multibyte`): two-byte codes (Identity CMap), no word spacing; with a vertical CMap
+  (`vertical`) `widths` holds the vertical displacement `w1y` per CID (`missing` = DW2[1]) and
+  `disps` the position vector `(vx, vy)` per CID (`dvy` = DW2[0] when the CID has none). -/
 structure Font where
   name : String
   first : Nat
   widths : List Rat
   missing : Rat
   descent : Rat
+  fm : Option Matrix
+  multibyte : Bool
+  vertical : Bool
+  disps : List (Rat × Rat)
+  dvy : Rat
   deriving Repr, DecidableEq, Inhabited
 
 /-- The font `PDFResourceManager.get_font(None, {})` builds for an undefined font name:
 `/Widths` defaults to 256 zeros, no descriptor. -/
-def Font.fallback : Font := ⟨"unknown", 0, List.replicate 256 0, 0, 0⟩
+def Font.fallback : Font := ⟨"unknown", 0, List.replicate 256 0, 0, 0, none, false, false, [], 880⟩
 
-/-- Glyph-space width (units of 1/1000) of a character code: `Widths[code - FirstChar]`, else `MissingWidth`. -/
+/-- Horizontal scale from glyph space to text space: 1/1000, except for a Type 3 font where a
+glyph-space displacement `(w, 0)` becomes `(w·a, w·b)` under the FontMatrix `[a b c d e f]` (9.6.5). -/
+def Font.hscale (f : Font) : Rat :=
+  match f.fm with
+  | none => 1 / 1000
+  | some m => m.1
+
+/-- Vertical scale: 1/1000, resp. the `d` entry of the FontMatrix. -/
+def Font.vscale (f : Font) : Rat :=
+  match f.fm with
+  | none => 1 / 1000
+  | some m => m.2.2.2.1
+
+/-- Glyph-space width of a character code / CID: `Widths[code - FirstChar]`, else `MissingWidth`
+(vertical CID fonts: `w1y` from W2, else DW2[1]). -/
 def Font.width (f : Font) (code : Nat) : Rat :=
   if code < f.first then f.missing else (f.widths[code - f.first]?).getD f.missing
+
+/-- `char_disp` of a vertical font: `(vx, vy)` from W2, else `(None, DW2[0])`. -/
+def Font.disp (f : Font) (cid : Nat) : Option Rat × Rat :=
+  if cid < f.first then (none, f.dvy)
+  else match f.disps[cid - f.first]? with
+    | some (vx, vy) => (some vx, vy)
+    | none => (none, f.dvy)
+
+/-- Two-byte codes, high byte first; a trailing odd byte is not a code. -/
+def pairCodes : List Nat → List Nat
+  | hi :: lo :: rest => (hi * 256 + lo) :: pairCodes rest
+  | _ => []
+
+/-- `font.decode(bytes)`: the character codes / CIDs of a string operand. -/
+def Font.decode (f : Font) (bytes : List Nat) : List Nat :=
+  if f.multibyte then pairCodes bytes else bytes
 
 structure Res where
   fonts : List (String × Nat)
